@@ -29,10 +29,10 @@ func init() {
 		Level: "model_checking", CrossSolver: true,
 		Explanation: "bounded symbolic execution of the loaders on well-formed skeleton files (symbolic header fields) followed by P concrete zero bytes of pixel data, read through a counting source: the number of bytes delivered is asserted <= (offset of the last needed structure, computed from the container layout) + 65536 on every path, and a second load of the file truncated at that offset must give identical metadata",
 		Bounds: func(tier string) map[string]interface{} {
-			return map[string]interface{}{"payload_sizes": "{0, 4096, 70000} quick; adds {1, 300000} thorough", "families": "PNG, PNG+iCCP, JPEG, JPEG+ICC (SOF first / last), WebP VP8/VP8L/VP8X(+ICCP), each through its own loader and through autometa", "delivery": "unlimited and 1000-byte reads", "outside": "payloads above 300000 bytes (64 MiB): the bound is on what the loader requests, established by the counting source"}
+			return map[string]interface{}{"payload_sizes": "{0, 4096, 70000, 300000} quick; adds {1} thorough", "families": "PNG, PNG+iCCP, JPEG, JPEG+ICC (SOF first / last), WebP VP8/VP8L/VP8X(+ICCP), WebP and PNG with a 140000-byte embedded profile, each through its own loader and through autometa", "delivery": "unlimited and 1000-byte reads", "outside": "payloads above 300000 bytes (64 MiB): the bound is on what the loader requests, established by the counting source"}
 		},
 		Runs: func(tier string, seed int64) []*Run {
-			p := int64(3)
+			p := int64(4)
 			if tier == "thorough" {
 				p = 5
 			}
